@@ -47,17 +47,12 @@ theorem complete_congr (s : Schema) {g1 g2 : Graph} (h : SameAnswers g1 g2)
     intro v d
     cases v <;> simp only [complete, ih]
 
-/-- the type a field's selections are walked at reads the graph through the nodes' Go types only -/
-theorem dynTy_congr (env : Env) (g2 : Graph) (h : SameAnswers env.graph g2) (node : Nat) (ty : String) :
-    dynTy env node ty = dynTy { env with graph := g2 } node ty := by
+/-- the object type of a node reads the graph through the nodes' Go types only -/
+theorem objectTypeOf_congr (env : Env) (g2 : Graph) (h : SameAnswers env.graph g2) (node : Nat) (ty : String) :
+    objectTypeOf env node ty = objectTypeOf { env with graph := g2 } node ty := by
   have hg : (env.graph[node]?).map (·.goType) = (g2[node]?).map (·.goType) := h.2 node
-  unfold dynTy
+  unfold objectTypeOf
   cases h1 : env.graph[node]? <;> cases h2 : g2[node]? <;> simp_all
-  split
-  · rfl
-  · cases hfind : env.schema.find ty with
-    | none => rfl
-    | some td => cases td <;> simp only [hg]
 
 mutual
 theorem rSel_congr (env : Env) (g2 : Graph) (h : SameAnswers env.graph g2) (node : Nat) (ty : String) (d : Nat)
@@ -68,19 +63,22 @@ theorem rSel_congr (env : Env) (g2 : Graph) (h : SameAnswers env.graph g2) (node
     have hc : ∀ t v dd,
         complete env.schema env.graph
           (fun n t d' => if sels.isEmpty = true then ((.obj [] : J), ({ errs := [⟨[], .noSelection⟩] } : Acc))
-            else (J.obj (rSels env n (dynTy env n t) d' [] sels).fst, (rSels env n (dynTy env n t) d' [] sels).snd)) t v dd =
+            else (J.obj (rSels env n t d' [] sels).fst, (rSels env n t d' [] sels).snd)) t v dd =
         complete env.schema g2
           (fun n t d' => if sels.isEmpty = true then ((.obj [] : J), ({ errs := [⟨[], .noSelection⟩] } : Acc))
-            else (J.obj (rSels { env with graph := g2 } n (dynTy { env with graph := g2 } n t) d' [] sels).fst,
-                  (rSels { env with graph := g2 } n (dynTy { env with graph := g2 } n t) d' [] sels).snd)) t v dd := by
+            else (J.obj (rSels { env with graph := g2 } n t d' [] sels).fst, (rSels { env with graph := g2 } n t d' [] sels).snd)) t v dd := by
       intro t v dd
       apply complete_congr env.schema h
       intro n t d'
-      simp only [← dynTy_congr env g2 h n t, rSels_congr env g2 h n (dynTy env n t) d' [] sels]
-    simp only [rSel, hf, hc]
+      simp only [rSels_congr env g2 h n t d' [] sels]
+    have htn : typeNameOf env node ty = typeNameOf { env with graph := g2 } node ty := by
+      simp only [typeNameOf, objectTypeOf_congr env g2 h node ty]
+    simp only [rSel, hf, hc, htn]
   | .inline cond dirs sels sp => by
-    have hfa : fragApplies env node ty cond = fragApplies { env with graph := g2 } node ty cond := rfl
-    simp only [rSel, hfa, rSels_congr env g2 h node ty d res sels]
+    have hfa : fragApplies env node ty cond = fragApplies { env with graph := g2 } node ty cond := by
+      simp only [fragApplies, objectTypeOf_congr env g2 h node ty]
+    have hft : fragTy env ty cond = fragTy { env with graph := g2 } ty cond := rfl
+    simp only [rSel, hfa, hft, rSels_congr env g2 h node (fragTy { env with graph := g2 } ty cond) d res sels]
 
 theorem rSels_congr (env : Env) (g2 : Graph) (h : SameAnswers env.graph g2) (node : Nat) (ty : String) (d : Nat)
     (res : List (String × J)) : ∀ (ss : List Sel),
